@@ -132,6 +132,8 @@ static void oracle(const World &w, const std::vector<Pk> &pk, Outcome &out, std:
   // that a given optical depth corresponds to with the thinnest one:
   //   NBmax[g] = max n*max(xH,xHe), NBmin[g] = min n*min(xH,xHe) over the neighbourhood of g.
   std::vector<LD> NBmax(nc, 0), NBmin(nc, INFINITY);
+  LD nxmin = INFINITY; // the same lower bound over the whole box
+  for (int g = 0; g < nc; ++g) nxmin = std::min(nxmin, (LD)w.dens[g] * std::min((LD)w.xH[g], (LD)w.xHe[g]));
   for (int g = 0; g < nc; ++g) {
     const int gi[3] = {g / (w.Ng[1] * w.Ng[2]), (g / w.Ng[2]) % w.Ng[1], g % w.Ng[2]};
     for (int a = -1; a <= 1; ++a) for (int b = -1; b <= 1; ++b) for (int c = -1; c <= 1; ++c) {
@@ -164,7 +166,7 @@ static void oracle(const World &w, const std::vector<Pk> &pk, Outcome &out, std:
       }
     }
     segs.clear();
-    LD cum = 0, sabs = -1;
+    LD cum = 0, sabs = -1, rest = INFINITY; // rest: optical depth left in the cell behind the absorption point
     bool done = false, pending_edge = false;
     for (int chunk = 0; !done; ++chunk) {
       const LD s0 = chunk * diag, s1 = std::min((LD)(chunk + 1) * diag, Sexit);
@@ -204,7 +206,7 @@ static void oracle(const World &w, const std::vector<Pk> &pk, Outcome &out, std:
         const int g = w.gidx(gi[0], gi[1], gi[2]);
         const LD kap = (LD)w.dens[g] * ((LD)p.sigma[ION_H_n] * (LD)w.xH[g] + (LD)p.sigma[ION_He_n] * (LD)w.xHe[g]);
         LD len = b - a;
-        if (cum + kap * len >= (LD)p.tau) { len = ((LD)p.tau - cum) / kap; sabs = a + len; done = true; }
+        if (cum + kap * len >= (LD)p.tau) { const LD full = len; len = ((LD)p.tau - cum) / kap; sabs = a + len; rest = kap * (full - len); done = true; }
         cum += kap * len;
         segs.push_back({g, len, kap, pending_edge});
         pending_edge = false;
@@ -255,6 +257,9 @@ static void oracle(const World &w, const std::vector<Pk> &pk, Outcome &out, std:
         if (back > dtau) break;
       }
       if (first_slack == 0 && start_edge) kref = std::min(kref, NBmin[g0] * smin);
+      // absorbed within dtau of the far wall of its cell: the real traversal may just as well carry on
+      // into the next cell, whatever that is (one of the 26 neighbours, possibly much thinner)
+      if (rest <= dtau) { segs.back().edge = true; kref = std::min(kref, nxmin * smin); }
     }
     I.ds = std::isfinite((double)kref) ? dtau / kref : 0;
     I.tie_escape = false;
